@@ -435,3 +435,113 @@ func (P *Program) StaticCallees(fnName string) (map[string]int, error) {
 	walk(fn)
 	return out, nil
 }
+
+
+// MapRanges lists the functions of the repository's own packages (harness overlays excluded) that range over a Go map,
+// with the position of each such range statement. Used as an audit aid: these are the places where iteration order can
+// leak into results.
+func (P *Program) MapRanges() []string {
+	var out []string
+	seen := map[*ssa.Function]bool{}
+	var visit func(fn *ssa.Function)
+	visit = func(fn *ssa.Function) {
+		if fn == nil || seen[fn] {
+			return
+		}
+		seen[fn] = true
+		for _, b := range fn.Blocks {
+			for _, ins := range b.Instrs {
+				if r, ok := ins.(*ssa.Range); ok {
+					if _, isMap := r.X.Type().Underlying().(*types.Map); isMap {
+						pos := P.Fset.Position(r.Pos())
+						if !strings.Contains(pos.Filename, "zz_verif") && !strings.Contains(pos.Filename, "/zzverif/") && !strings.HasSuffix(pos.Filename, ".pb.go") && !strings.HasSuffix(pos.Filename, ".pb.gw.go") {
+							out = append(out, fmt.Sprintf("%s\t%s:%d", fn.String(), pos.Filename, pos.Line))
+						}
+					}
+				}
+			}
+		}
+		for _, a := range fn.AnonFuncs {
+			visit(a)
+		}
+	}
+	for path, pkg := range P.Pkgs {
+		if !strings.HasPrefix(path, HaqqMod) {
+			continue
+		}
+		for _, m := range pkg.Members {
+			switch x := m.(type) {
+			case *ssa.Function:
+				visit(x)
+			case *ssa.Type:
+				for _, t := range []types.Type{x.Type(), types.NewPointer(x.Type())} {
+					ms := P.Prog.MethodSets.MethodSet(t)
+					for i := 0; i < ms.Len(); i++ {
+						visit(P.Prog.MethodValue(ms.At(i)))
+					}
+				}
+			}
+		}
+	}
+	sort.Strings(out)
+	return out
+}
+
+
+// VariadicStrings returns, for every call of calleeName inside fnName, the constant strings passed as its variadic
+// argument, in order (the slice is built from an array whose elements are stored one by one).
+func (P *Program) VariadicStrings(fnName, calleeName string) ([][]string, error) {
+	fn, err := P.FindFunction(fnName)
+	if err != nil {
+		return nil, err
+	}
+	var out [][]string
+	for _, b := range fn.Blocks {
+		for _, in := range b.Instrs {
+			c, ok := in.(ssa.CallInstruction)
+			if !ok {
+				continue
+			}
+			cf := c.Common().StaticCallee()
+			if cf == nil || cf.String() != calleeName || len(c.Common().Args) == 0 {
+				continue
+			}
+			sl, ok := c.Common().Args[len(c.Common().Args)-1].(*ssa.Slice)
+			if !ok {
+				return nil, fmt.Errorf("%s: variadic argument of %s is not a literal list", P.Fset.Position(c.Pos()), calleeName)
+			}
+			alloc, ok := sl.X.(*ssa.Alloc)
+			if !ok {
+				return nil, fmt.Errorf("%s: variadic argument of %s is not built in place", P.Fset.Position(c.Pos()), calleeName)
+			}
+			vals := map[int64]string{}
+			max := int64(-1)
+			for _, ref := range *alloc.Referrers() {
+				ia, ok := ref.(*ssa.IndexAddr)
+				if !ok {
+					continue
+				}
+				ic, ok := ia.Index.(*ssa.Const)
+				if !ok {
+					continue
+				}
+				for _, r2 := range *ia.Referrers() {
+					if st, ok := r2.(*ssa.Store); ok {
+						if cv, ok := st.Val.(*ssa.Const); ok && cv.Value != nil {
+							vals[ic.Int64()] = constant.StringVal(cv.Value)
+							if ic.Int64() > max {
+								max = ic.Int64()
+							}
+						}
+					}
+				}
+			}
+			var list []string
+			for i := int64(0); i <= max; i++ {
+				list = append(list, vals[i])
+			}
+			out = append(out, list)
+		}
+	}
+	return out, nil
+}
